@@ -200,7 +200,7 @@ CLAIMED = {
             "both calling conventions): for all 16-bit arguments div is signed division truncating towards zero and mod "
             "its remainder (sign of the dividend), a zero divisor gives zero, results are 16-bit words and "
             "divisor*quotient+remainder recomposes the dividend; and, on the specification machine of C01, the full "
-            "contract for every machine state of ten routines written in HERA assembly: size, ord, not and malloc in both "
+            "contract for every machine state of eleven routines written in HERA assembly: size, ord, not and malloc in both "
             "calling conventions (result, return to the caller, FP restored, SP and the caller's registers unchanged, exactly "
             "which memory cells are written), `not` and the stack `malloc` being placed at an arbitrary address (their label "
             "branches are absolute); malloc is shown to refine a bump allocator on the cell 0x4000, and for that allocator "
@@ -212,7 +212,9 @@ CLAIMED = {
             "advance, counter zero, return; C19_copy_moves_the_words / C19_copy_leaves_the_rest say what a forward copy between "
             "disjoint regions does). A routine that calls a routine: the register chr, in any program map holding chr and "
             "malloc, returns a fresh allocator block holding [1; c] (C19_chr_reg_contract; the callee's contract is reused "
-            "inside the caller's run). NOT theorems: the stack chr, concat, substring, tstrcmp, the failure path of malloc "
+            "inside the caller's run); the stack chr likewise, with two frames on the stack and the stack malloc as callee, for a "
+            "stack that does not wrap and lies on one side of the heap (C19_chr_stack_contract). NOT theorems: concat, substring "
+            "(apart from their copy loop), tstrcmp, the failure path of malloc "
             "(prints and exits) and the I/O functions — decided by running each "
             "function in both conventions on the real interpreter with edge/random arguments under random register "
             "contents (result vs independent computation, return to the caller, SP/FP restored, R1..R10 preserved in the "
